@@ -61,7 +61,7 @@ theorem remove_other (w : World) (i k : Nat) (nm : String) (h : k ≠ i) : (remo
       | none => simpa using hk
       | some inst0 =>
         simp only []
-        cases detachAll cfg.keepConnectedNode inst0.tab e.nodes e.counted with
+        cases detachAll cfg.keepConnectedNode inst0.tab (cfg.removeSel.pick e.nodes) e.counted with
         | inl t => simp [set_other _ _ _ _ h, hk]
         | inr t => simp [set_other _ _ _ _ h, hk]
 
@@ -114,18 +114,30 @@ theorem readSlots_length (ds : List String) (w : World) (i : Nat) : (readSlots c
   | nil => rfl
   | cons d ds ih => simp only [readSlots]; rw [ih, readSlot_length]
 
+theorem damage_other (w : World) (i k : Nat) (q : String) (h : k ≠ i) : (damage cfg w i q).insts[k]? = w.insts[k]? := by
+  unfold damage
+  cases hi : w.insts[i]? with
+  | none => rfl
+  | some inst => simp [set_other _ _ _ _ h]
+
+theorem query_other (w : World) (i k : Nat) (q : String) (h : k ≠ i) : (query cfg w i q).1.insts[k]? = w.insts[k]? := by
+  simp only [query]; rw [damage_other _ _ _ _ h, readSlots_other _ _ _ _ h]
+
+theorem query_length (w : World) (i : Nat) (q : String) : (query cfg w i q).1.insts.length = w.insts.length := by
+  simp only [query]; rw [damage_length, readSlots_length]
+
 theorem derive_other (w : World) (i k : Nat) (pre : String) (es : List Elt) (h : k ≠ i) (hk : k < w.insts.length) :
     (derive cfg w i pre es).insts[k]? = w.insts[k]? := by
   unfold derive
-  have hlen : (query cfg w i pre).1.insts.length = w.insts.length := readSlots_length _ _ _
+  have hlen : (query cfg w i pre).1.insts.length = w.insts.length := query_length _ _ _
   rw [addRaw_fold_other _ _ _ _ (by rw [hlen]; exact Nat.ne_of_lt hk), newInst_other _ _ (by rw [hlen]; exact hk)]
-  exact readSlots_other _ _ _ _ h
+  exact query_other _ _ _ _ h
 
 /-- the source of a derived circuit keeps its elements and node table -/
 theorem derive_source (w : World) (i : Nat) (pre : String) (es : List Elt) (hi : i < w.insts.length) :
     ((derive cfg w i pre es).insts[i]?).map (fun x : Inst => (x.elts, x.tab)) = (w.insts[i]?).map (fun x : Inst => (x.elts, x.tab)) := by
   unfold derive
-  have hlen : (query cfg w i pre).1.insts.length = w.insts.length := readSlots_length _ _ _
+  have hlen : (query cfg w i pre).1.insts.length = w.insts.length := query_length _ _ _
   rw [addRaw_fold_other _ _ _ _ (by rw [hlen]; exact Nat.ne_of_lt hi), newInst_other _ _ (by rw [hlen]; exact hi)]
   -- reading memo slots changes neither elements nor table
   have : ∀ (ds : List String) (w : World), ((readSlots cfg i w ds).1.insts[i]?).map (fun x : Inst => (x.elts, x.tab)) = (w.insts[i]?).map (fun x : Inst => (x.elts, x.tab)) := by
@@ -155,6 +167,8 @@ theorem derive_source (w : World) (i : Nat) (pre : String) (es : List Elt) (hi :
             have hge : w.insts[i] = inst := by
               have := List.getElem?_eq_getElem hlt; rw [hi] at this; exact (Option.some.inj this).symm
             cases kd <;> simp [hi, List.getElem?_set, hlt, hge]
+  simp only [query]
+  rw [damage_abs]
   exact this _ _
 
 theorem lookup_mem {α : Type} (l : List (String × α)) (s : String) (k : α) (h : l.lookup s = some k) : (s, k) ∈ l := by
@@ -170,13 +184,18 @@ theorem lookup_mem {α : Type} (l : List (String × α)) (s : String) (k : α) (
 
 /-- with the three flags set, admissibility is just: public operation -/
 theorem runOK_of_flags (cfg : Config) (hadd : cfg.addInvalidates = true) (hmulti : cfg.addMultiInvalidates = true) (hrem : cfg.removeInvalidates = true)
-    (hdet : cfg.overrideDetaches = true) (ops : List Op) (w : World)
+    (hdet : cfg.overrideDetaches = true) (hrsel : cfg.removeSel = .all) (hosel : cfg.overrideSel = .all) (ops : List Op) (w : World)
     (hpub : ∀ op ∈ ops, op.isPublic) (hok : NoRaise cfg w ops) : RunOK cfg w ops := by
   induction ops generalizing w with
   | nil => trivial
   | cons op ops ih =>
     refine ⟨?_, hok.1, ih _ (fun o ho => hpub o (List.mem_cons_of_mem _ ho)) hok.2⟩
     have hp := hpub op (List.mem_cons_self ..)
-    cases op <;> simp_all [Op.admissible, Op.isPublic]
+    cases op with
+    | addFail i es e late =>
+      have h1 := hok.1
+      simp only [step, addFail] at h1
+      cases hw : w.insts[i]? <;> simp [hw] at h1
+    | _ => simp_all [Op.admissible, Op.isPublic]
 
 end Lcapy.Cache
